@@ -615,19 +615,21 @@ def run_scenario(st, seed, only=None):
         stat('scenarios_with_signal_noise')
 
         def noise():
-            # also aimed at the worker threads themselves: a lock wait inside init_once is
-            # interrupted in the thread that waits
+            # process-directed signals while the main thread and this thread block SIGALRM:
+            # the kernel must deliver them to a worker thread, whose lock wait inside
+            # init_once is then interrupted.  (signal.pthread_kill() on the workers was used
+            # first: a detached thread that has just exited makes it undefined behaviour -
+            # SIGSEGV on the thorough tier, seed 8.)
+            signal.pthread_sigmask(signal.SIG_BLOCK, {signal.SIGALRM})
             while not noise_stop[0]:
-                for th in threads:
-                    if th.ident is not None and th.is_alive():
-                        try:
-                            signal.pthread_kill(th.ident, signal.SIGALRM)
-                        except (OSError, RuntimeError):
-                            pass
+                os.kill(os.getpid(), signal.SIGALRM)
                 time.sleep(0.0002)
-        threading.Thread(target=noise, daemon=True).start()
     for th in threads:
         th.start()
+    if sig_noise:
+        # the workers were created with SIGALRM unblocked; now block it here
+        signal.pthread_sigmask(signal.SIG_BLOCK, {signal.SIGALRM})
+        threading.Thread(target=noise, daemon=True).start()
     tids = [threading.main_thread().native_id] + [th.native_id for th in threads]
     heartbeat(st, seed, impl, 1, tids)
     go.set()
@@ -676,6 +678,8 @@ def run_scenario(st, seed, only=None):
     noise_stop[0] = True
     if sig_noise:
         signal.setitimer(signal.ITIMER_REAL, 0)
+        time.sleep(0.001)
+        signal.pthread_sigmask(signal.SIG_UNBLOCK, {signal.SIGALRM})
     heartbeat(st, seed, impl, 0, tids[:1])
     if st.get('stackf') is not None:
         faulthandler.cancel_dump_traceback_later()
